@@ -78,6 +78,14 @@ def gen(ctx):
             c["rule"] = rng.choice(["hash:3:2:1:0", "probe:3:5:1:0", "counter:3:0"])
             c["r"] = rng.choice([1, 2, 3, N // 2, N - 1, N])
             yield c
+    # large rings: N*(2r+1) beyond typical chunk / buffer thresholds (2^16, 2^20 elements), cell-dependent rule
+    big = [(1500, 400), (70000, 1)] if ctx.tier == "quick" else [(1500, 400), (2100, 260), (70000, 1), (40000, 14), (5000, 110)]
+    for (N, r) in big:
+        # (oracle only: the list-based Lean model is quadratic in N; the independent modular reference decides)
+        yield dict(kind="ev1", big=1, hist=[[(i * 7 + (i // 3)) % 3 for i in range(N)]], dtype="int64", scale=1, r=r,
+                   rule="probe:3:2:1:0", T=3, memo="False")
+        yield dict(kind="ev1", big=1, hist=[[(i * 5 + (i // 7)) % 3 for i in range(N)]], dtype="int32", scale=1, r=r,
+                   rule="probe:3:2:1:0", pred="steps:2", memo="False")
     # the strided index table itself
     for N in range(1, ctx.n(12, 40)):
         for r in range(1, N + 1):
@@ -87,6 +95,8 @@ def gen(ctx):
 def line(c):
     if c["kind"] == "strides":
         return "index_strides N=%d r=%d" % (c["N"], c["r"])
+    if c.get("big"):
+        return None
     return ev1.line(c)
 
 
@@ -95,6 +105,8 @@ def impl(c):
         import cellpylib.ca_functions as cf
         return "ok " + fmt.mat(cf._index_strides(np.arange(c["N"]), 2 * c["r"] + 1).tolist())
     run = ev1.run_impl(c)
+    if c.get("big"):
+        return fmt.err(run.exc) if run.exc is not None else "ok big rows=%d" % len(run.res)
     return ev1.answer(c, run)
 
 
@@ -132,6 +144,18 @@ def nontrivial(c, ans):
 
 def shrink(c):
     if c["kind"] != "ev1":
+        return
+    N0 = len(c["hist"][-1])
+    if N0 > 64:
+        # large rings: halve / trim the ring (keeping r <= N), reduce the radius
+        for newN in (N0 // 2, N0 - N0 // 8, N0 - 1):
+            if newN >= 1:
+                yield dict(c, hist=[row[:newN] for row in c["hist"]], r=min(c["r"], newN))
+        if c["r"] > 1:
+            yield dict(c, r=c["r"] // 2)
+            yield dict(c, r=c["r"] - 1)
+        if "T" in c and c["T"] > 2:
+            yield dict(c, T=c["T"] - 1)
         return
     if len(c["hist"]) > 1:
         yield dict(c, hist=c["hist"][1:])
